@@ -21,7 +21,7 @@ RULE = ("one flow rule (WarmUp+Reject 72%, MemoryAdaptive+Reject 22%, invalid 6%
         "BucketLeapArray fed by the standalone stat slot); in 60% of the cases a second, generous Direct+Reject rule is listed before (40%) or after (20%) "
         "the adaptive rule; demand = phases of saturating per-second bursts, "
         "sub-second streams, steady single-token demand, idle gaps (short / longer than the refill time), optional traffic before the "
-        "rule is loaded, batch sizes 1..5; memory readings at/around both water marks and -1; non-trivial = the rule is in force and at least "
+        "rule is loaded, batch sizes 1..5; memory readings at/around both water marks, -1, 0, negative values down to MinInt64 and values far above the high water mark (2^33 .. 2^62, MaxInt64; also right after a reading that gives the largest threshold); non-trivial = the rule is in force and at least "
         "one request line is partially admitted (0 < k < n) or (warm-up) two lines of equal demand admit different counts; distinct by "
         "(rule parameters, demand-phase kinds)")
 
@@ -48,7 +48,7 @@ def pick_T(rng, cf):
     return float(rng.choice([500, 1000, 2500]))
 
 
-IVS = [0, 0, 0, 0, 0, 0, 1000, 500, 2000, 5000, 10000, 1500, 3000, 20000, 700]      # the last four cannot reuse the resource's statistic
+IVS = [0, 0, 0, 0, 0, 0, 1000, 500, 2000, 5000, 10000, 1500, 3000, 20000, 700, 250, 700000]      # the last six cannot reuse the resource's statistic
 
 
 def reload_wu(rng, ops, cur):
@@ -175,6 +175,23 @@ def demand(rng, ops, now, cur, secs_hint, reloads):
     return now, kinds
 
 
+MAXI64 = 9223372036854775807
+
+
+def pick_mem(rng, lowM, highM):
+    """memory readings for a memory-adaptive rule: around both water marks, and the whole int64 range beyond them — the gauge may
+    report anything (0, negative garbage, more than the host's physical memory up to MaxInt64); -1 is "not retrieved" """
+    r = rng.random()
+    if r < 0.55:
+        return rng.choice([lowM - 1, lowM, lowM + 1, (lowM + highM) // 2, highM - 1, highM, highM + 1, 2 * highM,
+                           rng.randint(lowM, highM), rng.randint(lowM, highM)])
+    if r < 0.70:
+        return rng.choice([-1, 0, 0, 1])
+    if r < 0.90:
+        return rng.choice([1 << 33, 1 << 36, 1 << 37, 1 << 40, 1 << 47, 1 << 62, MAXI64 - 1, MAXI64, 100 * highM])
+    return rng.choice([-2, -5, -(1 << 20), -(1 << 40), -MAXI64, -MAXI64 - 1])
+
+
 def companion(rng, ops, tags):
     """a second, generous Direct+Reject rule on the default statistic, listed before or after the adaptive rule: it never decides,
     but the resource then has two controllers (the standalone stat slot must feed the adaptive rule's own statistic in both orders)"""
@@ -219,8 +236,14 @@ def gen_case(rng, cid, t0):
             if rng.random() < reloads:
                 tags.append(reload_ma(rng, ops, cur))
             lowT, lowM, highM = cur["lowT"], cur["lowM"], cur["highM"]
-            m = rng.choice([-1, 0, 1, lowM - 1, lowM, lowM + 1, (lowM + highM) // 2, highM - 1, highM, highM + 1, 2 * highM,
-                            rng.randint(lowM, highM), rng.randint(lowM, highM)])
+            m = pick_mem(rng, lowM, highM)
+            if rng.random() < 0.15:
+                # a reading that gives the largest threshold, demand, then a reading far above everything
+                ops.append(f"mem {rng.choice([0, lowM, lowM - 1])}")
+                now += 2000
+                ops.append(f"clock {now}")
+                ops.append(f"req {min(3000, lowT + 2)} 1")
+                m = rng.choice([1 << 36, 1 << 40, 1 << 62, MAXI64])
             ops.append(f"mem {m}")
             now += rng.choice([1, 400, 500, 1000, 1000, 2000, 12000])
             ops.append(f"clock {now}")
@@ -228,7 +251,7 @@ def gen_case(rng, cid, t0):
             ops.append(f"req {min(3000, lowT // b + 2)} {b}")
         tags.append("mem-sweep")
     else:
-        k = rng.choice(["cf1", "p0", "neg", "ma-order", "ma-marks", "ma-zero"])
+        k = rng.choice(["cf1", "p0", "neg", "ma-order", "ma-marks", "ma-zero", "ma-lowmark0", "ma-highmark-neg", "ma-highmark-huge"])
         if k == "cf1":
             ops.append(f"load wu {fb(5)} 10 1 {iv}")
         elif k == "p0":
@@ -239,6 +262,12 @@ def gen_case(rng, cid, t0):
             ops.append(f"load ma 10 {rng.choice([10, 11, 100])} 100 200 {iv}")
         elif k == "ma-marks":
             ops.append(f"load ma 10 5 {rng.choice([200, 201])} 200 {iv}")
+        elif k == "ma-lowmark0":
+            ops.append(f"load ma 10 5 {rng.choice([0, -7])} 200 {iv}")
+        elif k == "ma-highmark-neg":
+            ops.append(f"load ma 10 5 100 {rng.choice([0, -200])} {iv}")
+        elif k == "ma-highmark-huge":
+            ops.append(f"load ma 10 5 100 {MAXI64} {iv}")        # above the total memory of any machine
         else:
             ops.append(f"load ma {rng.choice([0, -1, 10])} {rng.choice([0, -3])} {rng.choice([0, 100])} 200 {iv}")
         tags += ["invalid", k]
@@ -287,7 +316,7 @@ def throttle_case(rng, cid, t0):
                 tags.append("reload-" + k)
                 emit()
             lowT, highT, lowM, highM = cur["lowT"], cur["highT"], cur["lowM"], cur["highM"]
-            m = rng.choice([-1, 0, lowM - 1, lowM, lowM + 1, (lowM + highM) // 2, highM - 1, highM, highM + 1, 2 * highM, rng.randint(lowM, highM)])
+            m = pick_mem(rng, lowM, highM)
             ops.append(f"mem {m}")
             # every earlier probe may have slept up to the queueing limit: stay ahead of the real clock
             now += rng.choice([1, 500, 1000, 1000, 3000, 12000])
